@@ -33,7 +33,13 @@ MANIFEST = {
             "make_whole=False every non-anchor molecule moves rigidly; unit cell and time bit-identical; inplace=False "
             "leaves the source bit-identical, returns a new object sharing no memory; inplace=True returns self and "
             "produces bit-identical coordinates. Separately Topology.find_molecules() must equal the union-find connected components "
-            "for every system and for every labelled bond graph on 1..5 atoms (1099 graphs x 2 bond-list orders). Explicit sorted_bonds=: for every system variant (all relabellings) "
+            "for every system and for every labelled bond graph on 1..5 atoms (1099 graphs x 2 bond-list orders). Multi-anchor systems with real element types: two anchors (O,H,H + C,H,H,H; O,H,H + H,H,O) and three "
+            "anchors (+ N,H), one ion, every order of the explicit anchor list (quick: the 3 cyclic orders for three anchors), "
+            "and guessed anchors with 18 (thorough also 3 anchors with 27) extra ions; scatter = every placement of the "
+            "non-first molecules in the images {-1,0,1}^3 relative to the first (27, 27^2 = 729; guessed 3-anchor system 7^2 "
+            "face images); image_molecules with make_whole True and False; additionally judged: every ANCHOR molecule gets one "
+            "common lattice shift (make_whole=False) and all bonded pairs are at the minimum image (make_whole=True). "
+            "Explicit sorted_bonds=: for every system variant (all relabellings) "
             "make_molecules_whole and image_molecules(make_whole=True) are also called with a caller-supplied, correct "
             "placement order (breadth-first walk from the HIGHEST atom index of each molecule, thorough also from the lowest; "
             "rows (placed atom, atom to place), mostly not lexicographically sorted) and judged by the same lattice / "
